@@ -115,7 +115,11 @@ EXPORT errno_t _strnset_s_chk(char *restrict dest, rsize_t dmax, int value, rsiz
 #ifdef SAFECLIB_STR_NULL_SLACK
     /* null slack to clear any data */
     dmax -= (rsize_t)(dest - orig_dest);
-    if (dmax && !*dest) /* dmax == 0: dest points behind the buffer now */
+    while (dmax && *dest) { /* n < strlen(dest): go to the terminator */
+        dmax--;
+        dest++;
+    }
+    if (dmax) /* dmax == 0: dest points behind the buffer now */
         memset(dest, 0, dmax);
 #endif
 
